@@ -826,6 +826,156 @@ fn miri_subprocess(seed: u64, n: u64) -> Stats {
     st
 }
 
+// ---------------------------------------------------------------------------------------------
+// the streaming half of the storage layer (`Storage::stream_writer` / `stream_reader` and the
+// buffered fetch of a streamed object): the only code of anda_db that contains `unsafe`
+// (`streaming_decompress`: `Vec::set_len` after zstd wrote into spare capacity; `BoundedReader`:
+// `ReadBuf::assume_init`). Nothing else in the repository calls it, so it gets its own workload;
+// the AddressSanitizer / memcheck passes of the thorough tier run exactly this section.
+
+async fn storage_stream_case(case: u64, rng: &mut Rng, st: &mut Stats) {
+    use anda_db::storage::Storage;
+    use tokio::io::{AsyncReadExt, AsyncWriteExt};
+    let compress = [0, 3, 1, 9][(case % 4) as usize];
+    let chunk = *rng.pick(&[64 * 1024usize, 256 * 1024, 5 * 1024 * 1024]);
+    let small = *rng.pick(&[64 * 1024usize, 2000 * 1024]);
+    let cfg = StorageConfig { compress_level: compress, object_chunk_size: chunk, max_small_object_size: small,
+        cache_max_capacity: if rng.bool() { 100 } else { 0 }, ..Default::default() };
+    let store = Arc::new(InMemory::new());
+    let stg = match Storage::connect("c13s".to_string(), store.clone(), cfg.clone()).await {
+        Ok(s) => s,
+        Err(e) => {
+            st.inconclusive(format!("C13 storage_stream: connect failed: {e:?}"));
+            return;
+        }
+    };
+    let base = *rng.pick(&[0usize, 1, 100, 4095, 65535, 65536, 65537, 131072, 300_000, 1 << 20, (1 << 21) + 17]);
+    let len = if base > 1000 && rng.bool() { base + rng.usize(2000) - 1000 } else { base };
+    let kind = rng.below(3);
+    let data: Vec<u8> = match kind {
+        0 => (0..len).map(|i| (i % 251) as u8).collect(),                 // compressible
+        1 => { let mut r = rng.fork(); (0..len).map(|_| r.next_u64() as u8).collect() } // incompressible
+        _ => { let mut r = rng.fork(); (0..len).map(|i| if (i / 4096) % 2 == 0 { 7 } else { r.next_u64() as u8 }).collect() }
+    };
+    st.eval();
+    st.count(&format!("stream_compress_level_{compress}"));
+    st.count(["stream_data_compressible", "stream_data_incompressible", "stream_data_mixed"][kind as usize]);
+    let ctx = |what: &str| json!({"case": case, "len": len, "compress_level": compress, "object_chunk_size": chunk, "max_small_object_size": small, "what": what});
+    // a writer dropped without shutdown publishes nothing
+    {
+        let mut w = stg.stream_writer("dropped");
+        let _ = w.write_all(&data[..len.min(1000)]).await;
+        drop(w);
+        if stg.fetch_bytes("dropped").await.is_ok() {
+            st.violation("C13/storage_stream/dropped_writer_published_an_object", ctx("dropped"));
+            return;
+        }
+    }
+    // write in pieces of random size, then shutdown
+    let mut w = stg.stream_writer("obj");
+    let mut off = 0;
+    while off < len {
+        let cap = *rng.pick(&[1usize, 100, 70_000, 400_000]);
+        let n = (1 + rng.usize(cap)).min(len - off);
+        if let Err(e) = w.write_all(&data[off..off + n]).await {
+            st.violation("C13/storage_stream/write_failed", json!({"error": e.to_string(), "context": ctx("write")}));
+            return;
+        }
+        off += n;
+    }
+    if let Err(e) = w.shutdown().await {
+        st.violation("C13/storage_stream/shutdown_failed", json!({"error": e.to_string(), "context": ctx("shutdown")}));
+        return;
+    }
+    drop(w);
+    st.count("stream_objects_written");
+    st.add("stream_bytes_written", len as u64);
+    // read back through the streaming reader: all at once and in small pieces
+    for piece in [0usize, 1 + rng.usize(5000), 1] {
+        if piece == 1 && len > 100_000 {
+            continue;
+        }
+        let mut r = match stg.stream_reader("obj").await {
+            Ok(r) => r,
+            Err(e) => {
+                st.violation("C13/storage_stream/stream_reader_failed", json!({"error": format!("{e:?}"), "context": ctx("open reader")}));
+                return;
+            }
+        };
+        let mut got = Vec::new();
+        let res = if piece == 0 {
+            r.read_to_end(&mut got).await.map(|_| ())
+        } else {
+            let mut buf = vec![0u8; piece];
+            loop {
+                match r.read(&mut buf).await {
+                    Ok(0) => break Ok(()),
+                    Ok(n) => got.extend_from_slice(&buf[..n]),
+                    Err(e) => break Err(e),
+                }
+            }
+        };
+        st.count("oracle_stream_reader_roundtrip");
+        if let Err(e) = &res {
+            // documented decompression-bomb bound of the streaming reader: 16 x max(on-disk size,
+            // max_small_object_size); an object that expands beyond it is refused by design
+            let on_disk = {
+                use object_store::ObjectStoreExt;
+                store.head(&object_store::path::Path::from("c13s/obj")).await.map(|m| m.size).unwrap_or(u64::MAX)
+            };
+            if (len as u64) > on_disk.saturating_mul(16).max(small as u64 * 16) && e.to_string().contains("exceeds the maximum") {
+                st.count("stream_reader_refused_beyond_documented_bomb_bound");
+                break;
+            }
+        }
+        if let Err(e) = res {
+            st.violation("C13/storage_stream/stream_read_failed", json!({"error": e.to_string(), "piece": piece, "context": ctx("read")}));
+            return;
+        }
+        if got != data {
+            st.violation("C13/storage_stream/stream_reader_returned_other_bytes", json!({"piece": piece, "got_len": got.len(),
+                "first_difference": got.iter().zip(data.iter()).position(|(a, b)| a != b), "context": ctx("compare")}));
+            return;
+        }
+    }
+    // the buffered fetch of the same object (frames written by the streaming encoder carry no
+    // content size: this is the path through `streaming_decompress`); bounded by 16 x
+    // max_small_object_size - beyond it an error is the documented answer, never other bytes
+    st.count("oracle_fetch_bytes_of_streamed_object");
+    match stg.fetch_bytes("obj").await {
+        Ok((b, _)) => {
+            if b.as_ref() != data.as_slice() {
+                st.violation("C13/storage_stream/fetch_bytes_returned_other_bytes", json!({"got_len": b.len(), "context": ctx("fetch_bytes")}));
+                return;
+            }
+            if compress > 0 && kind != 1 && len > 100 {
+                st.count("fetch_bytes_of_compressed_stream_ok");
+            }
+        }
+        Err(e) => {
+            if len <= small * 16 && len <= small {
+                st.violation("C13/storage_stream/fetch_bytes_failed_for_a_small_streamed_object", json!({"error": format!("{e:?}"), "context": ctx("fetch_bytes")}));
+                return;
+            }
+            st.count("fetch_bytes_refused_large_streamed_object");
+        }
+    }
+    // overwrite through the stream, cached reads must see the new bytes
+    if len > 0 && rng.chance(1, 3) {
+        let data2: Vec<u8> = data.iter().rev().copied().collect();
+        let mut w = stg.stream_writer("obj");
+        if w.write_all(&data2).await.is_ok() && w.shutdown().await.is_ok() {
+            drop(w);
+            st.count("oracle_stream_overwrite_visible");
+            if let Ok((b, _)) = stg.fetch_bytes("obj").await {
+                if b.as_ref() != data2.as_slice() {
+                    st.violation("C13/storage_stream/stale_bytes_after_stream_overwrite", ctx("overwrite"));
+                }
+            }
+        }
+    }
+}
+
 fn main() {
     let mut run = Run::from_args(
         "C13",
@@ -865,6 +1015,10 @@ fn main() {
         run.parallel("storage", t.pick(4_000, 400_000), 0.6, |c, rng, st| block_on(storage_case(c, rng, st)));
         run.parallel("storage_budget", t.pick(8, 200), 0.5, |c, _rng, st| block_on(storage_budget_case(c, st)));
         run.parallel("storage_large", t.pick(16, 400), 0.5, |c, rng, st| block_on(storage_large_case(c, rng, st)));
+    }
+    if run.wants("storage_stream") {
+        let n = if run.arg_u64("memcheck", 0) == 1 { 24 } else { t.pick(160, 6_000) };
+        run.parallel("storage_stream", n, 0.5, |c, rng, st| block_on(storage_stream_case(c, rng, st)));
     }
     if run.wants("vector_untyped") {
         // Vector in an untyped position around the three limits of its read-back shape (regression
@@ -921,6 +1075,9 @@ fn main() {
         run.floor(&format!("storage_roundtrip:{}", cfg_label(c)), 500);
     }
     run.floor("storage_updates", 500);
+    run.floor("oracle_stream_reader_roundtrip", 200);
+    run.floor("oracle_fetch_bytes_of_streamed_object", 100);
+    run.floor("fetch_bytes_of_compressed_stream_ok", 20);
     run.floor("storage_large_roundtrips", 40);
     run.floor("storage_large_refused_at_write", 1);
     run.floor("storage_cold_reads", 1_000);
